@@ -3,12 +3,6 @@
 import Gleece.Model.Validate
 namespace Gleece.Validate
 
-/-- does the annotation table demand a unique value for this annotation -/
-def requiresUnique (a : Annot) : Bool :=
-  match lookupDef a.name with
-  | some d => d.requiresUniqueValue
-  | none => false
-
 theorem hasError_append (a b : List Diag) : hasError (a ++ b) = (hasError a || hasError b) := by
   simp [hasError, List.any_append]
 
